@@ -20,6 +20,18 @@ def cmpFloat (x y : Float) : Int :=
   else if x > y then 1
   else 0
 
+def cmpInt64' (x y : Int64) : Int := if x < y then -1 else if x > y then 1 else 0
+
+/-- `cmpIntFloat`: exact three-way comparison of an int64 with a float64 -/
+def cmpIntFloat (i : Int64) (f : Float) : Int :=
+  if f.isNaN then 1
+  else if f ≥ 9223372036854775808.0 then -1
+  else if f < -9223372036854775808.0 then 1
+  else
+    let t := if f < 0 then f.ceil else f.floor
+    let c := cmpInt64' i t.toInt64
+    if c != 0 then c else cmpFloat t f
+
 def cmpInt64 (x y : Int64) : Int := if x < y then -1 else if x > y then 1 else 0
 
 def cmpBytes : Bytes → Bytes → Int
@@ -33,8 +45,8 @@ def cmpStr (a b : String) : Int := cmpBytes (toBytes a) (toBytes b)
 mutual
 /-- `object.Cmp` on dereferenced values -/
 def cmp : Obj → Obj → R Int
-  | .int a, .float b => pure (cmpFloat a.toFloat (f64 b))
-  | .float a, .int b => pure (cmpFloat (f64 a) b.toFloat)
+  | .int a, .float b => pure (cmpIntFloat a (f64 b))
+  | .float a, .int b => pure (-(cmpIntFloat b (f64 a)))
   | .int a, .int b => pure (cmpInt64 a b)
   | .float a, .float b => pure (cmpFloat (f64 a) (f64 b))
   | .bool a, .bool b => pure (if a == b then 0 else if a then 1 else -1)
@@ -47,8 +59,8 @@ def cmp : Obj → Obj → R Int
     if a.length < b.length then pure (-1) else if a.length > b.length then pure 1 else cmpList a b
   | .map _ a, .map _ b =>
     if a.length < b.length then pure (-1) else if a.length > b.length then pure 1 else cmpPairs a b
-  | .ret .., .ret .. => throw (.goPanic "Cmp:RETURN")
-  | .quote _, .quote _ => throw (.goPanic "Cmp:QUOTE")
+  | .ret a _, .ret b _ => cmp a b
+  | .quote _, .quote _ => throw (.unmodelled "Cmp of quotes (ordered by printed form)")
   | .ref .., .ref .. => throw (.goPanic "Cmp:REFERENCE")
   | a, b => pure (if a.typeNum < b.typeNum then -1 else 1)
 def cmpList : List Obj → List Obj → R Int
